@@ -54,9 +54,12 @@ def run(c: sym.Ctx, spec: Dict[str, Any], n_msgs: int = 1) -> Lab:
     failing = {tid_of(i) for i in range(n_msgs) if bfail[i]}
     broker = make_broker(lab, backend_fail=lambda tid: tid in failing, backend_gate=spec.get("backend_gate", n_msgs > 1))
     late_from = spec.get("late_from")  # middlewares from this index on are registered after a first message was processed
-    all_mws = [make_middleware(lab, k, hooks, replace_message=spec.get("replace", False),
-                               raising=spec.get("raising_hook") if k == spec.get("raising_mw", 0) else None)
-               for k, hooks in enumerate(spec.get("mws", []))]
+    all_mws: List[Any] = []
+    for k, hooks in enumerate(spec.get("mws", [])):
+        # spec["inherit"]: middleware k's class derives from middleware k-1's class (hooks inherited from an intermediate base)
+        all_mws.append(make_middleware(lab, k, hooks, replace_message=spec.get("replace", False),
+                                       raising=spec.get("raising_hook") if k == spec.get("raising_mw", 0) else None,
+                                       base=all_mws[-1] if (spec.get("inherit") and all_mws) else None))
     for k, mw in enumerate(all_mws):
         if late_from is None or k < late_from:
             broker.add_middlewares(mw)
